@@ -118,11 +118,42 @@ def extract_scatter(effs, target):
     fg = filter_groups(v)
     if fg is not None:
         return Scatter(fg[0], [fg[1] + (st,)], st, problems)
+    dg = dict_groups(v)
+    if dg is not None:
+        return Scatter(dg[0], [dg[1] + (st,)], st, problems)
     ov = dict_overwrite(v)
     if ov is not None:
         problems.append(('overwrite', ov, st))
         return Scatter(None, [], st, problems)
     raise Unknown('value assigned to %s is not a recognised group-by: %s' % (show(target), show(v)[:100]))
+
+
+def dict_groups(v):
+    """[D.get(r, []) for r in range(lo, hi)]  with D filled by D.setdefault(key(x), []).append(x) over a chain: the scatter
+    of every x under key(x) - lo into hi - lo slots (keys outside the range are dropped, as with the list form they would
+    raise; the size rule decides whether the range is the right one)"""
+    from .canon import lin_const
+    if not (v[0] == 'comp' and len(v[1]) == 1 and v[1][0][1] == TRUE):
+        return None
+    r = v[1][0][0]
+    d = r[3]
+    if not (d[0] == 'call' and d[1] == S('range') and len(d[2]) in (1, 2)):
+        return None
+    lo, hi = (C(0), d[2][0]) if len(d[2]) == 1 else (d[2][0], d[2][1])
+    if not (lo[0] == 'const' and isinstance(lo[1], int)):
+        return None
+    val = v[2]
+    if val[0] == 'call' and val[1] in (S('list'), S('tuple')) and len(val[2]) == 1:
+        val = val[2][0]
+    D = None
+    if val[0] == 'call' and val[1][0] == 'attr' and val[1][2] == 'get' and len(val[2]) == 2 and val[2][0] == r and val[2][1] in (('list', ()), ('tuple', ())):
+        D = val[1][1]
+    if D is None or D[0] != 'accum' or D[1] != ('dict', ()) or len(D[2]) != 1 or D[2][0][0] != 'appendidx':
+        return None
+    op, key, x, chain = D[2][0]
+    size = hi if lo == C(0) else (lin_const(BIN('Sub', hi, lo)) or BIN('Sub', hi, lo))
+    k2 = key if lo == C(0) else (lin_const(BIN('Sub', key, lo)) or BIN('Sub', key, lo))
+    return size, ('appendidx', k2, x, tuple(chain))
 
 
 def filter_groups(v):
